@@ -235,6 +235,8 @@ def run_history(args):
             if a["a"] == "Stale":
                 placed = []
                 for path, content in STALE[plugin](out, test):
+                    if a.get("how") == "crlf" and os.path.exists(path):
+                        continue                      # this history re-encodes what the plugin wrote instead of replacing it
                     os.makedirs(os.path.dirname(path), exist_ok=True)
                     with open(path, "w") as f:
                         f.write(content)
@@ -243,8 +245,14 @@ def run_history(args):
                 # (the rust plugin owns only a marked region of <test-dir>/src/main.rs: that file is left alone)
                 existing = [f for f in OWNED[plugin](out, test) if os.path.exists(f) and f not in placed and not f.startswith(test)]
                 if existing:
-                    with open(existing[len(existing) // 2], "w") as f:
-                        f.write("stale bytes under an owned name\n")
+                    target = existing[len(existing) // 2]
+                    data = open(target, "rb").read()
+                    if a.get("how") == "crlf" and data and b"\r\n" not in data:
+                        # the TEXT the plugin wrote, with Windows line endings (a checkout, an editor): still not its output
+                        open(target, "wb").write(data.replace(b"\n", b"\r\n"))
+                    else:
+                        with open(target, "w") as f:
+                            f.write("stale bytes under an owned name\n")
                 events.append({"e": "Stale", "plugin": plugin})
                 continue
             model = models[a["model"] if a["valid"] else "bad"]
